@@ -247,4 +247,16 @@ L32Checksum(sym32) == LET mod == Xor(Polymod(sym32 \o <<0, 0, 0, 0, 0, 0>>), 1)
 L32Encode(addr) == LET s == Regroup(addr, 8, 5) IN s \o L32Checksum(s)          \* 20 bytes -> 38 symbols
 L32Valid(sym38) == Len(sym38) = 38 /\ (\A i \in 1..38 : sym38[i] \in 0..31) /\ Polymod(sym38) = 1
 L32Decode(sym38) == Regroup(SubSeq(sym38, 1, 32), 5, 8)                        \* 38 symbols -> 20 bytes
+
+\* The TEXT form, as a sequence of character codes: "lsk" followed by 38 characters of L32Charset.  A text converts to
+\* bytes and back without loss iff it is in the image of the bytes -> text conversion, i.e. iff it has the lower-case
+\* prefix, 38 characters of the (lower-case) alphabet and a valid checksum: every other accepted text would come back
+\* as a different text.
+L32CharCodes == <<122, 120, 118, 99, 112, 109, 98, 110, 51, 52, 54, 53, 111, 57, 55, 56,
+                  117, 121, 114, 116, 107, 113, 101, 119, 50, 97, 100, 115, 106, 104, 102, 103>>
+L32Prefix == <<108, 115, 107>>
+L32SymOf(c) == IF \E i \in 1..32 : L32CharCodes[i] = c THEN (CHOOSE i \in 1..32 : L32CharCodes[i] = c) - 1 ELSE 32
+L32TextValid(t) == /\ Len(t) = 41
+                   /\ SubSeq(t, 1, 3) = L32Prefix
+                   /\ L32Valid([i \in 1..38 |-> L32SymOf(t[i + 3])])
 =============================================================================
